@@ -209,4 +209,51 @@ def judge (inp : Input) (obs : Option Obs) (fields : List Nat) : String :=
     else if !structOk inp obs then "fail:counts:user code invoked in another number or order than the constructor shape prescribes"
     else "ok"
 
+/-! ### histories: several creations on one registration -/
+
+/-- identities of the configurations held by the products of a phase -/
+def phaseCells (o : Obs) : List Nat := o.steps.filterMap prodCell?
+
+/-- the configurations held by the products of all phases that must configure per product -/
+def freshCellsH (h : HInput) : List Phase → List Obs → List Nat
+  | p :: ps, o :: os => (if freshApplies (h.input p) then phaseCells o else []) ++ freshCellsH h ps os
+  | _, _ => []
+
+/-- the final views, phase by phase (a phase owns as many entries as it has pointer-holding products): every product
+of a phase that must configure per product still reads its own serial number at the very end of the history -/
+def finalViewsOk (h : HInput) : List Phase → List Obs → List (Nat × Int) → Bool
+  | p :: ps, o :: os, vs =>
+    (!freshApplies (h.input p) || (vs.take (phaseCells o).length).all (fun v => (v.1 : Int) == v.2)) &&
+      finalViewsOk h ps os (vs.drop (phaseCells o).length)
+  | _, _, _ => true
+
+/-- across the phases: no two products of per-product-configuring phases hold the same configuration object, whichever
+creations they come from, and none of them was disturbed by a later creation -/
+def histCrossOk (h : HInput) (o : HObs) : Bool :=
+  h.sh.dflt == .shared ||
+    (nodup (freshCellsH h h.phases o.phases) && finalViewsOk h h.phases o.phases o.views)
+
+/-- every phase on its own satisfies the whole single-creation Spec w.r.t. ITS user settings -/
+def histPhasesOk (h : HInput) (fields : List Nat) : List Phase → List Obs → Bool
+  | p :: ps, o :: os =>
+    errorsOk (h.input p) o &&
+    (h.sh.dflt == .shared || configOk (h.input p) o fields) &&
+    (!freshApplies (h.input p) || freshOk (h.input p) o) &&
+    (!onceApplies (h.input p) || onceOk (h.input p) o) &&
+    (!percallApplies (h.input p) || percallOk (h.input p) o) &&
+    structOk (h.input p) o &&
+    histPhasesOk h fields ps os
+  | [], [] => true
+  | _, _ => false
+
+/-- verdict on a history (`none` = registration panicked) -/
+def judgeHist (h : HInput) (obs : Option HObs) (fields : List Nat) : String :=
+  match obs with
+  | none => if registerOk h.sh then "fail:regpanic:valid registration panicked" else "ok"
+  | some o =>
+    if !registerOk h.sh then "fail:registered:invalid registration accepted"
+    else if !histPhasesOk h fields h.phases o.phases then "fail:history:a later creation on the same registration breaks the Spec of a single creation"
+    else if !histCrossOk h o then "fail:fresh:products of different creations share a configuration object or a later creation disturbed an earlier product"
+    else "ok"
+
 end Pandora.Spec.C18
